@@ -14,6 +14,7 @@ import (
 	"github.com/ipni/go-libipni/ingest/model"
 	p2pcrypto "github.com/libp2p/go-libp2p/core/crypto"
 	"github.com/libp2p/go-libp2p/core/peer"
+	"github.com/multiformats/go-multiaddr"
 	"github.com/multiformats/go-multihash"
 )
 
@@ -64,6 +65,13 @@ func (c *Client) Announce(ctx context.Context, provider *peer.AddrInfo, root cid
 	p2paddrs, err := peer.AddrInfoToP2pAddrs(provider)
 	if err != nil {
 		return err
+	}
+	// Nothing may follow a path component (as in /unix/...): with the ID
+	// appended, such an address cannot be decoded by the receiver.
+	for i, a := range p2paddrs {
+		if _, err = multiaddr.NewMultiaddrBytes(a.Bytes()); err != nil {
+			return fmt.Errorf("cannot add provider ID to address %s: %w", provider.Addrs[i], err)
+		}
 	}
 	msg := message.Message{
 		Cid: root,
